@@ -157,8 +157,18 @@ def run_scenario(sc, observe="all"):
                 self.idx = idx
                 self.spec = spec
                 self.seen = collections.Counter()
+                self.cb_seen = collections.Counter()
+
+            def _inject(self, cb, market):
+                mi = mindex[market.market_id]
+                u = self.cb_seen[(cb, mi)]
+                self.cb_seen[(cb, mi)] += 1
+                for inj in sc.get("inject", []):
+                    if inj["s"] == self.idx and inj["cb"] == cb and inj["m"] == mi and inj["u"] == u:
+                        raise (ValueError if inj.get("exc", "value") == "value" else __import__("flumine").exceptions.FlumineException)("injected in %s" % cb)
 
             def check_market_book(self, market, market_book):
+                self._inject("check", market)
                 return True
 
             def _snapshot(self, cb, market, market_book):
@@ -196,6 +206,7 @@ def run_scenario(sc, observe="all"):
                                     "tx": [[c.current_transaction_count_total, c.transaction_count_total] for c in cls]})
 
             def process_new_market(self, market, market_book):
+                self._inject("new_market", market)
                 rec.calls.append([self.idx, "new_market", market.market_id, market_book.publish_time_epoch, ms(datetime.datetime.utcnow())])
 
             def process_market_book(self, market, market_book):
@@ -203,6 +214,7 @@ def run_scenario(sc, observe="all"):
                 u = self.seen[mi]
                 self.seen[mi] += 1
                 self._snapshot("book", market, market_book)
+                self._inject("book", market)
                 acts = script.get((self.idx, mi, u), [])
                 txn = None
                 for a in acts:
@@ -269,6 +281,7 @@ def run_scenario(sc, observe="all"):
                     txn.__exit__(None, None, None)
 
             def process_orders(self, market, orders):
+                self._inject("orders", market)
                 rec.calls.append([self.idx, "orders", market.market_id, market.market_book.publish_time_epoch, ms(datetime.datetime.utcnow())])
 
             def process_closed_market(self, market, market_book):
@@ -289,6 +302,20 @@ def run_scenario(sc, observe="all"):
                           multi_order_trades=sp.get("multi", False))
             fw.add_strategy(st)
             strategies.append(st)
+
+        class RaisingMiddleware(Middleware):
+            def __init__(self):
+                self.seen = collections.Counter()
+                self.calls = []
+            def __call__(self, market):
+                mi = mindex[market.market_id]
+                u = self.seen[mi]; self.seen[mi] += 1
+                self.calls.append([market.market_id, market.market_book.publish_time_epoch])
+                for inj in sc.get("inject", []):
+                    if inj["cb"] == "middleware" and inj["m"] == mi and inj["u"] == u:
+                        raise ValueError("injected in middleware")
+        rmw = RaisingMiddleware()
+        fw.add_market_middleware(rmw)
 
         class Cap(LoggingControl):
             NAME = "CAP"
@@ -327,7 +354,7 @@ def run_scenario(sc, observe="all"):
                "final": final, "error": err, "clock_restored": datetime.datetime is real_dt,
                "tx": [[c.current_transaction_count_total, c.transaction_count_total] for c in cls],
                "markets": {mid: {"closed": m.closed} for mid, m in fw.markets._markets.items()},
-               "invested": [sorted({k[0] for k in st._invested}) for st in strategies],
+               "invested": [sorted({k[0] for k in st._invested}) for st in strategies], "mw_calls": rmw.calls,
                "mw_markets": sorted(fw._market_middleware[0].markets.keys()) if fw._market_middleware else []}
         if err:
             out["tb"] = getattr(rec, "tb", "")
